@@ -2,7 +2,8 @@
 From stdpp Require Import gmap list.
 From Coq Require Import ZArith String.
 From OL Require Import theories.Store theories.Abci theories.Restart theories.Caches
-  proofs.StoreProofs proofs.AbciProofs proofs.RestartProofs gen.Facts_Caches.
+  proofs.StoreProofs proofs.AbciProofs proofs.RestartProofs gen.Facts_Caches
+  theories.Globals proofs.GlobalsProofs gen.Facts_Globals.
 Local Open Scope Z_scope.
 
 (* after a crash at ANY call boundary of ANY block (arbitrary hook, handler and fee programs),
@@ -70,3 +71,62 @@ Example C08_fact_caches_nonvacuous :
   (20 <=? Z.of_nat (count_class (fun c => match c with PerTx => true | _ => false end) cache_fields)) = true /\
   count_class (fun c => match c with CycleCache => true | _ => false end) cache_fields = 1%nat.
 Proof. vm_compute. repeat split; reflexivity. Qed.
+
+(* ---------- process-local memory outside the object graph, node-local inputs ---------- *)
+(* A process that is restarted loses its package-level variables and may find other node-local
+   data (the job store, the witness flag read at start).  What is persisted must not depend on
+   them.  Model: theories/Globals.v (the ETH lock-tracker transitions as the block ender runs them). *)
+Theorem C08_tracker_state_independent_of_local_inputs : forall h1 h2 t,
+  same_inputs h1 h2 -> writes_ok h1 = true -> writes_ok h2 = true ->
+  run false t h1 = run false t h2.
+Proof. exact run_local_independent. Qed.
+
+Theorem C08_tracker_step_is_consensus_step : forall t l,
+  l_write_ok l = true -> persisted false t l = consensus_step t.
+Proof. exact persisted_is_consensus_step. Qed.
+
+(* necessity (the repaired defect 3dd4152): with "a missing broadcast job is an error" the node that
+   was restarted (witness flag on, no job) keeps the tracker in BusyBroadcasting *)
+Example C08_old_finalizing_depends_on_the_job_store :
+  let t := {| t_state := 1; t_votes := 1; t_finalized := false |} in
+  t_state (persisted true t node_with_job) = 2%nat /\
+  t_state (persisted true t fresh_node) = 2%nat /\
+  t_state (persisted true t node_restarted_without_job) = 1%nat /\
+  t_state (persisted false t node_restarted_without_job) = 2%nat.
+Proof. exact old_finalizing_node_dependent. Qed.
+
+Example C08_tracker_history_nonvacuous :
+  let t0 := {| t_state := 0; t_votes := 0; t_finalized := false |} in
+  let cin := [EndBlock; Vote false; EndBlock; Vote true; EndBlock; EndBlock] in
+  let h1 := map (fun c => (c, node_with_job)) cin in
+  let h2 := map (fun c => (c, node_restarted_without_job)) cin in
+  same_inputs h1 h2 /\ writes_ok h1 = true /\ writes_ok h2 = true /\
+  t_state (run false t0 h1) = 3%nat /\ run false t0 h1 = run false t0 h2 /\
+  t_state (run true t0 h2) = 1%nat.
+Proof. exact run_reaches_finalized. Qed.
+
+(* tie to the source (regenerated on every run):
+   - every package-level variable written at run time is a constant of the process image (init only),
+     a registry filled from init functions, or the one audited node-local flag;
+   - the functions that consult the witness flag or look a job up are exactly the audited ones;
+   - no function of package event assigns a tracker state and later fails on a job LOOKUP (the shape of
+     the repaired defect); failures of a job WRITE (the node's own database) are the audited ones. *)
+Theorem C08_fact_globals : unknown_globals written_globals = [] /\ node_flags written_globals = ["identity.isETHWitness"%string].
+Proof. vm_compute. split; reflexivity. Qed.
+
+Theorem C08_fact_local_reads : unaudited_reads local_reads = [].
+Proof. vm_compute. reflexivity. Qed.
+
+Theorem C08_fact_state_then_local_error :
+  state_then_lookup_error = [] /\ unaudited_write_errors state_then_write_error = [].
+Proof. vm_compute. split; reflexivity. Qed.
+
+Example C08_fact_globals_nonvacuous :
+  (20 <=? Z.of_nat (List.length written_globals)) = true /\ (15 <=? Z.of_nat (List.length local_reads)) = true /\
+  (3 <=? Z.of_nat (List.length state_then_write_error)) = true.
+Proof. vm_compute. repeat split; reflexivity. Qed.
+Print Assumptions C08_tracker_state_independent_of_local_inputs.
+Print Assumptions C08_tracker_step_is_consensus_step.
+Print Assumptions C08_fact_globals.
+Print Assumptions C08_fact_local_reads.
+Print Assumptions C08_fact_state_then_local_error.
